@@ -42,7 +42,10 @@ type c03Res struct {
 	index   uint64
 }
 
-type c03Apply struct{ index, term uint64; id int64 } // id < 0: restore marker (index = snapshot last index)
+type c03Apply struct {
+	index, term uint64
+	id          int64
+} // id < 0: restore marker (index = snapshot last index)
 
 type c03FSM struct {
 	mu       sync.Mutex
@@ -243,6 +246,7 @@ type c03Cluster struct {
 	drops    []*msgDropper
 	dups     []*msgDuplicator
 	reorders []*msgReorder
+	holds    []*VerifHold
 	clock    int64
 	nextID   int64
 	mu       sync.Mutex
@@ -288,7 +292,9 @@ func c03NewCluster(cfg c03Cfg, r *vw.Rng, tag string) *c03Cluster {
 		dr := NewMsgDropper(mem, int64(r.U64()>>1), cfg.dropP).(*msgDropper)
 		du := NewMsgDuplicator(NewVerifSnapOnce(dr), 20, cfg.dupP, int64(r.U64()>>1)).(*msgDuplicator)
 		re := NewMsgReorder(du, cfg.reorderP, cfg.reorderMax, int64(r.U64()>>1)).(*msgReorder)
-		node := NewRaft(rc, newStorage(), re)
+		ho := NewVerifHold(re)
+		c.holds = append(c.holds, ho)
+		node := NewRaft(rc, newStorage(), ho)
 		c.nodes = append(c.nodes, node)
 		c.fsms = append(c.fsms, &c03FSM{slow: cfg.slowApply})
 		c.drops = append(c.drops, dr)
@@ -318,6 +324,173 @@ func (c *c03Cluster) healAll(p float32) {
 			}
 		}
 	}
+}
+
+func (c *c03Cluster) releaseAll(discard bool) {
+	for i := range c.nodes {
+		for j := range c.nodes {
+			if i != j {
+				c.holds[i].Release(c03Name(j), discard)
+			}
+		}
+	}
+}
+
+// issue starts one operation without waiting for it; it is recorded like any client operation.
+func (c *c03Cluster) issue(kind, node int, watchers *sync.WaitGroup, abort chan struct{}) *c03Op {
+	op := c.newOp(kind, node)
+	var cmd [8]byte
+	binary.LittleEndian.PutUint64(cmd[:], uint64(op.ID))
+	op.Inv = c.stamp()
+	var p *Pending
+	if kind == c03Read {
+		p = c.nodes[node].VerifyRead()
+	} else {
+		p = c.nodes[node].Propose(cmd[:])
+	}
+	watchers.Add(1)
+	go func() {
+		defer watchers.Done()
+		select {
+		case <-p.Done:
+			c.finish(op, p)
+		case <-abort:
+			select {
+			case <-p.Done:
+				c.finish(op, p)
+			default:
+			}
+		}
+	}()
+	return op
+}
+
+func (c *c03Cluster) waitOps(d time.Duration, ops ...*c03Op) bool {
+	end := time.Now().Add(d)
+	for {
+		all := true
+		for _, op := range ops {
+			if atomic.LoadInt32(&op.done) == 0 {
+				all = false
+			}
+		}
+		if all || !time.Now().Before(end) {
+			return all
+		}
+		time.Sleep(time.Millisecond)
+	}
+}
+
+func (c *c03Cluster) otherLeader(not int, d time.Duration) int {
+	end := time.Now().Add(d)
+	for time.Now().Before(end) {
+		for _, l := range c.believedLeaders() {
+			if l != not {
+				return l
+			}
+		}
+		time.Sleep(time.Millisecond)
+	}
+	return -1
+}
+
+// Directed scenario "held acknowledgements": verified reads and a write are in flight at leader L while every message
+// TO L is held back; L is then cut off, the others elect a new leader where a newer command is acknowledged; more
+// verified reads are requested at L; the held messages are released in order (the old acknowledgements first).
+// A read requested at L after the newer command was acknowledged must not succeed without reflecting it.
+func (c *c03Cluster) scenarioHeldAcks(watchers *sync.WaitGroup, abort chan struct{}, stats map[string]int64) {
+	ls := c.believedLeaders()
+	if len(ls) == 0 {
+		return
+	}
+	l, n := ls[0], c.cfg.n
+	for j := 0; j < n; j++ {
+		if j != l {
+			c.holds[j].Set(c03Name(l), VerifHoldQ, VerifAll)
+		}
+	}
+	// the write first, so that the verification NOP is the LAST thing in flight at L
+	ops := []*c03Op{c.issue(c03Propose, l, watchers, abort)}
+	time.Sleep(time.Millisecond)
+	ops = append(ops, c.issue(c03Read, l, watchers, abort))
+	time.Sleep(12 * c.cfg.tick)
+	for j := 0; j < n; j++ {
+		if j != l {
+			c.link(l, j, 1)
+		}
+	}
+	if nl := c.otherLeader(l, 3*time.Second); nl >= 0 {
+		for try := 0; try < 20; try++ {
+			nl = c.otherLeader(l, time.Second)
+			if nl < 0 {
+				break
+			}
+			y := c.issue(c03Propose, nl, watchers, abort)
+			ops = append(ops, y)
+			if c.waitOps(time.Second, y) && y.Out == c03Ok {
+				stats["scenario_held_acks_armed"]++
+				break
+			}
+		}
+	}
+	for k := 0; k < 3; k++ {
+		ops = append(ops, c.issue(c03Read, l, watchers, abort))
+	}
+	time.Sleep(20 * time.Millisecond)
+	for j := 0; j < n; j++ {
+		if j != l {
+			c.holds[j].Release(c03Name(l), false)
+		}
+	}
+	c.healAll(0)
+	c.waitOps(10*time.Second, ops...)
+	stats["scenario_held_acks"]++
+}
+
+// Directed scenario "new leader before its NOP": a command X is acknowledged by leader A while the followers get
+// the entry but not its commit (commit-carrying AppEnts from A are held back); A is cut off; among the followers the
+// acknowledgements are held back, so whoever wins the election holds X unapplied and cannot commit its term's NOP;
+// verified reads are requested there; then everything is released. The reads must reflect X.
+func (c *c03Cluster) scenarioStuckNewLeader(watchers *sync.WaitGroup, abort chan struct{}, stats map[string]int64) {
+	ls := c.believedLeaders()
+	if len(ls) == 0 {
+		return
+	}
+	a, n := ls[0], c.cfg.n
+	for j := 0; j < n; j++ {
+		if j != a {
+			c.holds[a].Set(c03Name(j), VerifHoldQ, VerifCommitHB)
+		}
+	}
+	x := c.issue(c03Propose, a, watchers, abort)
+	ok := c.waitOps(2*time.Second, x) && x.Out == c03Ok
+	for j := 0; j < n; j++ {
+		if j != a {
+			c.link(a, j, 1)
+			c.link(j, a, 1)
+			c.holds[a].Release(c03Name(j), true)
+			for k := 0; k < n; k++ {
+				if ok && k != a && k != j {
+					c.holds[j].Set(c03Name(k), VerifHoldQ, VerifAcks)
+				}
+			}
+		}
+	}
+	ops := []*c03Op{x}
+	if ok {
+		if w := c.otherLeader(a, 3*time.Second); w >= 0 {
+			stats["scenario_stuck_new_leader_armed"]++
+			for k := 0; k < 3; k++ {
+				ops = append(ops, c.issue(c03Read, w, watchers, abort))
+			}
+			ops = append(ops, c.issue(c03Propose, w, watchers, abort))
+			time.Sleep(30 * time.Millisecond)
+		}
+	}
+	c.releaseAll(false)
+	c.healAll(0)
+	c.waitOps(10*time.Second, ops...)
+	stats["scenario_stuck_new_leader"]++
 }
 
 func (c *c03Cluster) believedLeaders() []int {
@@ -553,7 +726,34 @@ func (c *c03Cluster) nemesis(r *vw.Rng, wg *sync.WaitGroup, stats map[string]int
 			}
 			continue
 		}
-		switch r.Intn(8) {
+		switch r.Intn(9) {
+		case 8: // hold back what a leader should hear (everything, or only acknowledgements), maybe depose it, release in order
+			ls := c.believedLeaders()
+			if len(ls) == 0 {
+				continue
+			}
+			l := ls[r.Intn(len(ls))]
+			class := r.PickInt(VerifAll, VerifAcks, VerifAcks)
+			for j := 0; j < n; j++ {
+				if j != l {
+					c.holds[j].Set(c03Name(l), VerifHoldQ, class)
+				}
+			}
+			time.Sleep(time.Duration(r.Range(20, 150)) * time.Millisecond)
+			if r.Bool() {
+				for j := 0; j < n; j++ {
+					if j != l {
+						c.link(l, j, 1)
+					}
+				}
+				time.Sleep(time.Duration(r.Range(100, 300)) * time.Millisecond)
+			}
+			for j := 0; j < n; j++ {
+				if j != l {
+					c.holds[j].Release(c03Name(l), false)
+				}
+			}
+			stats["nemesis_hold_release"]++
 		case 0, 1: // isolate a node that believes it is the leader (symmetric)
 			ls := c.believedLeaders()
 			if len(ls) == 0 {
@@ -649,6 +849,7 @@ func c03RunCluster(caseIdx int) *c03Result {
 	atomic.StoreInt32(&c.stop, 1)
 	nw.Wait()
 	// settle: reliable network, no duplication, no delays
+	c.releaseAll(false)
 	c.healAll(0)
 	for i := range c.nodes {
 		c.dups[i].lock.Lock()
@@ -680,6 +881,12 @@ func c03RunCluster(caseIdx int) *c03Result {
 	grace := time.Now().Add(20 * time.Second)
 	for !allDone() && time.Now().Before(grace) {
 		time.Sleep(2 * time.Millisecond)
+	}
+	// directed message-level scenarios on the quiet network (one per case)
+	if caseIdx%2 == 0 {
+		c.scenarioHeldAcks(&watchers, abort, res.Stats)
+	} else {
+		c.scenarioStuckNewLeader(&watchers, abort, res.Stats)
 	}
 	// a final barrier command so that the replicas have something to converge on
 	var barrier *c03Op
